@@ -266,7 +266,7 @@ def _main(prop, tier, seed, nproc, spec, tmpdir, t_start):
             o.update(j[2])
         jobs.append((harness, list(args), o))
     # nproc workers; each obligation may run two solver processes, so use half the cores for workers
-    workers = max(1, min(len(jobs), nproc // 2 if tier == 'quick' else nproc // 2))
+    workers = max(1, min(len(jobs), nproc))
     ctx = mp.get_context('fork')
     results = []
     with ctx.Pool(workers, initializer=_init_worker, initargs=(ssa,)) as pool:
@@ -445,6 +445,9 @@ def _main(prop, tier, seed, nproc, spec, tmpdir, t_start):
     print('%s tier=%s configs=%d lemmas=%d paths=%d obligations=%d unsat=%d folded=%d sat=%d undecided=%d validated=%d wall=%.1fs' % (
         prop, tier, len(jobs), len(lemma_results), ev['coverage']['symbolic_paths'], n_oblig + n_trivial, n_unsat, n_trivial,
         len(sat_cases), len(undecided), validated, wall))
+    if os.environ.get('VERIF_VERBOSE'):
+        for r in sorted(all_results, key=lambda r: -r['wall'])[:12]:
+            print('  slow job %s%s %.1fs paths=%d solver=%s' % (r['harness'], r['args'], r['wall'], r['paths'], r['solver']))
     for k, r, ob in known_hits:
         print('KNOWN-FINDING: property=%s %s (%s%s: %s)' % (prop, k.get('what', k.get('id')), r['harness'], r['args'], ob['msg']))
     for e in errors[:20]:
